@@ -303,7 +303,7 @@ def run_harness(exe, pkg, test, seed, tier, out_path, replay=None, scale=None, t
 
 
 def _run_harness(exe, pkg, test, seed, tier, out_path, replay=None, scale=None, timeout=1800, extra_env=None):
-    env = dict(os.environ, VERIF_SEED=str(seed), VERIF_TIER=tier, VERIF_OUT=out_path)
+    env = dict(os.environ, VERIF_SEED=str(seed), VERIF_TIER=tier, VERIF_OUT=out_path, VERIF_LIST=out_path + ".list")
     env.pop("VERIF_REPLAY", None)
     env.pop("VERIF_SCALE", None)
     if replay:
@@ -383,6 +383,14 @@ def case_issue(cfg, pid, exe, hcfg, ops, tmp, want_kind):
     with open(rp, "w") as f:
         f.write(json.dumps({"ops": ops}) + "\n")
     rc, out, cases = run_harness(exe, hcfg["pkg"], hcfg["test"], 0, "quick", tmp + ".out.jsonl", replay=rp, timeout=300)
+    if rc != 0 and (not cases or len(cases[0].get("impl") or []) < len(ops)):
+        # the process died (or hung) while executing this case
+        impl = (cases[0].get("impl") or []) if cases else []
+        c = dict(ops=ops, impl=impl)
+        if want_kind in (None, "spec"):
+            return dict(case=0, step=min(len(impl), len(ops) - 1), kind="spec", why="violated:process-died",
+                        impl="<died>", model="", log=out[-1500:]), c
+        return None, c
     if not cases:
         return None, None
     model = run_driver(pid, cases)
@@ -391,6 +399,34 @@ def case_issue(cfg, pid, exe, hcfg, ops, tmp, want_kind):
         if want_kind is None or i["kind"] == want_kind:
             return i, cases[0]
     return None, cases[0]
+
+
+def find_culprit(exe, hcfg, candidates, tmp, budget_s=240):
+    """The harness process died: execute the candidate cases one by one (each in its own process) and return
+    (ops, partial impl, log) of the first that kills it again."""
+    t0 = time.time()
+    for ops in candidates:
+        if time.time() - t0 > budget_s:
+            break
+        rp = tmp + ".culprit.jsonl"
+        with open(rp, "w") as f:
+            f.write(json.dumps({"ops": ops}) + "\n")
+        rc, out, cs = run_harness(exe, hcfg["pkg"], hcfg["test"], 0, "quick", tmp + ".culprit.out.jsonl", replay=rp, timeout=300)
+        if rc != 0:
+            return ops, ((cs[0].get("impl") or []) if cs else []), out
+    return None, None, None
+
+
+def read_list(out_path):
+    p = out_path + ".list"
+    res = []
+    if os.path.exists(p):
+        for line in open(p):
+            try:
+                res.append(json.loads(line)["ops"])
+            except Exception:
+                pass
+    return res
 
 
 def shrink(cfg, pid, exe, hcfg, ops, kind, tmp, budget_s=60):
@@ -559,6 +595,16 @@ def main():
                 for c in ccases:
                     c.setdefault("tags", []).append("corpus")
                 cases += ccases
+                if rc != 0:
+                    # the process died in a corpus case: the cases not yet written are the suspects
+                    allc = [json.loads(l)["ops"] for cf in corpus for l in open(cf) if l.strip()]
+                    cops, cimpl, clog = find_culprit(exe, hcfg, allc[len(ccases):], tmp)
+                    if cops is not None:
+                        cases.append(dict(ops=cops, impl=cimpl, tags=["corpus", "culprit"]))
+                        issues.append(dict(case=len(cases) - 1, step=min(len(cimpl), len(cops) - 1), kind="spec",
+                                           why="violated:process-died", impl="<died>", model="", log=clog[-1500:]))
+                    else:
+                        corr_broken.append("Corr.%s: corpus run failed rc=%d after %d cases: %s" % (pid, rc, len(ccases), hl[-600:]))
             rc, harness_log, gcases = run_harness(exe, hcfg["pkg"], hcfg["test"], seed, tier, tmp + ".jsonl",
                                                   timeout=hcfg.get("timeout", 1800), cache=bool(hcfg.get("cache")))
             if harness_log.startswith("(cached"):
@@ -576,11 +622,21 @@ def main():
             if rc != 0 and not gcases:
                 corr_broken.append("Corr.%s: harness run failed rc=%d: %s" % (pid, rc, harness_log[-800:]))
             elif rc != 0:
-                # the process died mid-way (panic in a goroutine): last case is the suspect
+                # the process died mid-way (panic in a goroutine, deadlock): the cases that were running are the
+                # suspects -- the generated list tells which they are; each is executed again on its own
                 notes.append("harness exited rc=%d after %d cases" % (rc, len(gcases)))
-                issues.append(dict(case=len(cases) - 1, step=len(cases[-1].get("impl") or []), kind="spec",
-                                   why="violated:process-died", impl="<died>", model="",
-                                   log=harness_log[-1500:]))
+                glist = read_list(tmp + ".jsonl")
+                cops = None
+                if glist:
+                    cops, cimpl, clog = find_culprit(exe, hcfg, glist[len(gcases): len(gcases) + 16], tmp)
+                if cops is not None:
+                    cases.append(dict(ops=cops, impl=cimpl, tags=["culprit"]))
+                    issues.append(dict(case=len(cases) - 1, step=min(len(cimpl), len(cops) - 1), kind="spec",
+                                       why="violated:process-died", impl="<died>", model="", log=clog[-1500:]))
+                else:
+                    issues.append(dict(case=len(cases) - 1, step=len(cases[-1].get("impl") or []), kind="spec",
+                                       why="violated:process-died", impl="<died>", model="",
+                                       log=harness_log[-1500:]))
         model = run_driver(pid, cases)
         issues += compare(cfg, cases, model)
         if replay:
@@ -622,7 +678,7 @@ def main():
             break
         sops, sissue, scase = (ops, iss, cases[iss["case"]])
         hidx = cases[iss["case"]].get("harness", 0)
-        if exe and iss.get("why") != "violated:process-died" and not cfg.get("no_shrink"):
+        if exe and not cfg.get("no_shrink"):
             s2, i2, c2 = shrink(cfg, pid, harnesses[hidx][0], harnesses[hidx][1], ops, iss["kind"], tmp,
                                 budget_s=40 if tier == "quick" else 120)
             if i2 is None and harnesses[hidx][1].get("confirm"):
